@@ -8,6 +8,7 @@ import (
 	"fmt"
 	"os"
 	"strconv"
+	"strings"
 
 	"cedarverif/internal/core"
 	"cedarverif/internal/ltrace"
@@ -96,6 +97,11 @@ func main() {
 		run(c)
 	}()
 	code := c.Finish()
-	os.RemoveAll(*tmp)
+	// exit at once: the verdict is out, and a goroutine a replay left behind must not get the
+	// chance to die on the scratch directory disappearing under it (seen once: "OK ..." followed
+	// by exit status 2). bin/check removes the scratch directory itself.
+	if os.Getenv("CEDARVERIF_KEEP_TMP") == "" && !strings.HasPrefix(*tmp, os.TempDir()+"/cedarverif.") {
+		os.RemoveAll(*tmp)
+	}
 	os.Exit(code)
 }
